@@ -118,6 +118,7 @@ class Symex:
         self.live_iter_mut = False       # iter_mut over a collection of concrete length hands out references to the elements themselves (no havoc of the collection)
         self.pure_assign_ops = False      # `a += b` on a generic scalar becomes the pure update a := a + b instead of an opaque effect
         self.resolve_by_receiver = False  # unresolved trait calls on concrete receivers are dispatched to the receiver type's impl (concrete-shape tables)
+        self.distinct_opaques = False    # two different ("opaque", name) witnesses are different values (shape tables whose coordinates are named placeholders)
         self.fold_ground_eq = False      # structural == on fully concrete aggregates (only sound where no lazily evaluated closure can still mutate them)
         self.models = dict(DEFAULT_MODELS)
         if models:
@@ -322,6 +323,8 @@ class Symex:
                 path.append(("downcast", e[1], e[2]))
             elif e[0] == "opaque":
                 pass
+            elif e[0] == "subslice":
+                path.append(("subslice", e[1], e[2], bool(e[3])))
             else:
                 raise Unanalysable("projection %s" % e[0])
         return (root, tuple(path))
@@ -386,9 +389,27 @@ class Symex:
                 return v[3]
             return ("index", v, i)
         if k == "idxend":
-            if v[0] == "array":
-                return v[1][-e[1]]
+            a = v
+            while a[0] == "&":
+                a = a[1]
+            if a[0] == "call" and a[1] == "vec!" and a[2]:
+                a = a[2][0]
+                while a[0] == "&":
+                    a = a[1]
+            if a[0] == "array" and 0 < e[1] <= len(a[1]):
+                return a[1][-e[1]]
             return ("index_from_end", v, e[1])
+        if k == "subslice":
+            # the `rest @ ..` part of a slice pattern: [from .. len - to] (from_end) or [from .. to]
+            a = v
+            while a[0] == "&":
+                a = a[1]
+            if a[0] == "call" and a[1] == "vec!" and a[2]:
+                a = a[2][0]
+            if a[0] == "array":
+                items = a[1][e[1]:len(a[1]) - e[2]] if e[3] else a[1][e[1]:e[2]]
+                return ("array", tuple(items))
+            raise Unanalysable("subslice of a slice of unknown length")
         raise Unanalysable("project %s" % (k,))
 
     def update(self, st, old, path, val):
@@ -608,6 +629,16 @@ class Symex:
                 return ("const", -a[1])
             return ("un", "Neg", a)
         if op == "PtrMetadata":
+            # the length of a slice reference: known when the referent is a concrete array / vec!
+            b = a
+            while b[0] == "&":
+                b = b[1]
+            if b[0] == "call" and b[1] == "vec!" and b[2]:
+                b = b[2][0]
+                while b[0] == "&":
+                    b = b[1]
+            if b[0] == "array":
+                return ("const", len(b[1]))
             return ("len", a)
         return ("un", op, a)
 
@@ -893,6 +924,9 @@ def m_cmp(op, flip=False, neg=False):
             # `&x == &y` compares the referents
             while a[0] == "&" and b[0] == "&":
                 a, b = a[1], b[1]
+        if ex.distinct_opaques and op == "eq" and a[0] == "opaque" and b[0] == "opaque":
+            r = a == b
+            return _ret(st, ("const", (not r) if neg else r))
         if ex.fold_ground_eq and op == "eq" and ground(a) and ground(b) and (a[0] == "adt" or b[0] == "adt"):
             # derived / core PartialEq on fully concrete enum / struct values (e.g. Option<CoordPos>): structural equality
             r = a == b
@@ -1615,6 +1649,8 @@ def m_option_eq(ex, st, call, args):
     strip = lambda x: x[1] if x[0] == "&" else x
     if (ex.fold_ground_eq or ex.assume_reflexive) and strip(a[3][0]) == strip(b[3][0]):
         return _ret(st, ("const", True))
+    if ex.distinct_opaques and strip(a[3][0])[0] == "opaque" and strip(b[3][0])[0] == "opaque":
+        return _ret(st, ("const", False))
 
     def ground(t, d=0):
         if not isinstance(t, tuple) or d > 20:
@@ -1810,6 +1846,8 @@ DEFAULT_MODELS = {
     "alloc::vec::Vec::<T>::new": m_vec_new,
     "alloc::vec::Vec::<T>::with_capacity": m_vec_new,
     "alloc::vec::Vec::<T, A>::push": m_vec_push,
+    "alloc::vec::Vec::<T, A>::as_slice": m_identity,
+    "alloc::vec::Vec::<T, A>::as_mut_slice": m_identity,
     "alloc::vec::Vec::<T, A>::remove": m_vec_remove,
     "alloc::vec::Vec::<T, A>::insert": m_vec_insert,
     "core::slice::<impl [T]>::swap": m_slice_swap,
